@@ -492,6 +492,137 @@ Lemma f9_fixed :
   formatSI 99949999999999991 = [x39; x39; x2e; x39; x50].
 Proof. vm_compute. split; reflexivity. Qed.
 
+(* ---- the lower end of every rung: three significant digits ------------------------------------ *)
+
+(* an integer that every n FAILING the test has reached *)
+Definition rung_first_after (t : rung_test) : option Z :=
+  match t with
+  | OnInt num den => if 0 <? den then Some (- ((- num) / den)) else None
+  | OnDouble num den =>
+      if 0 <? den then
+        match first_false t (- ((- num) / den)) with
+        | Some n0 => if test t (n0 - 1) then Some n0 else None
+        | None => None
+        end
+      else None
+  | Else => None
+  end.
+
+Lemma rung_first_after_ok t lo n : rung_first_after t = Some lo -> test t n = false -> lo <= n.
+Proof.
+  intros E Ht. destruct t as [num den|num den|]; cbn [rung_first_after] in E; [| |discriminate].
+  - destruct (Z.ltb_spec 0 den) as [Hd|]; [|discriminate]. injection E as <-.
+    cbn [test] in Ht. apply Z.ltb_ge in Ht.
+    assert (- n <= - num / den) by (apply Z.div_le_lower_bound; lia). lia.
+  - destruct (Z.ltb_spec 0 den) as [Hd|]; [|discriminate].
+    destruct (first_false (OnDouble num den) (- (- num / den))) as [n0|]; [|discriminate].
+    destruct (test (OnDouble num den) (n0 - 1)) eqn:T; [|discriminate]. injection E as <-.
+    cbn [test] in Ht, T. apply Z.ltb_ge in Ht. apply Z.ltb_lt in T.
+    destruct (Z_le_gt_dec n0 n) as [|Hlt]; [assumption|exfalso].
+    pose proof (to_double_mono n (n0 - 1) ltac:(lia)) as Hm.
+    assert (to_double n * den <= to_double (n0 - 1) * den) by (apply Z.mul_le_mono_nonneg_r; lia). lia.
+Qed.
+
+(* at the first n of the rung (clipped to the domain) the number printed, scaled, is >= 100:
+   1.00 / 10.0 / 100 units; a rung that starts at or above 2^63 is never selected *)
+Definition sig_ok (f : rung_fmt) (lo : Z) : bool :=
+  match f with
+  | RInt => true
+  | RFix p d _ => fmt_ok f && ((2 ^ 63 <=? lo) || (100 <=? scaled p d (Z.max 0 lo)))
+  end.
+
+Fixpoint ladder_lo_ok (lo : Z) (l : list (rung_test * rung_fmt)) : bool :=
+  match l with
+  | [] => true
+  | (t, f) :: r =>
+      sig_ok f lo &&
+      match rung_first_after t with
+      | Some lo' => ladder_lo_ok (Z.max lo lo') r
+      | None => match t with Else => true | _ => false end
+      end
+  end.
+
+Definition sig_low (f : rung_fmt) (n : Z) : Prop :=
+  match f with RInt => True | RFix p d _ => 100 <= scaled p d n end.
+
+Lemma sig_ok_use f lo n : sig_ok f lo = true -> lo <= n -> 0 <= n < 2 ^ 63 -> sig_low f n.
+Proof.
+  intros H Hlo Hn. destruct f as [|p d u]; cbn [sig_low]; [exact I|].
+  cbn [sig_ok] in H. apply andb_prop in H. destruct H as [Hf H].
+  pose proof Hf as Hf'. cbn [fmt_ok] in Hf'. apply andb_prop in Hf'. destruct Hf' as [Hp Hd].
+  apply Z.leb_le in Hp. apply Z.ltb_lt in Hd.
+  apply orb_prop in H. destruct H as [H|H]; [apply Z.leb_le in H; lia|].
+  apply Z.leb_le in H.
+  pose proof (scaled_mono p d (Z.max 0 lo) n Hp Hd ltac:(lia)). lia.
+Qed.
+
+Lemma ladder_lower l : forall lo, ladder_lo_ok lo l = true ->
+  forall n, lo <= n -> 0 <= n < 2 ^ 63 -> sig_low (select n l) n.
+Proof.
+  induction l as [|[t f] r IH]; intros lo Hok n Hlo Hn; [exact I|].
+  cbn [ladder_lo_ok] in Hok. apply andb_prop in Hok. destruct Hok as [H1 H2].
+  pose proof (sig_ok_use f lo n H1 Hlo Hn) as Key.
+  assert (Next : test t n = false -> sig_low (select n r) n).
+  { intros T. destruct (rung_first_after t) as [lo'|] eqn:E.
+    - pose proof (rung_first_after_ok t lo' n E T). apply (IH (Z.max lo lo')); [exact H2|lia|exact Hn].
+    - destruct t; [discriminate H2|discriminate H2|discriminate T]. }
+  destruct t as [num den|num den|]; cbn [select].
+  - destruct (n * den <? num) eqn:T; [exact Key|apply Next; exact T].
+  - destruct (to_double n * den <? num) eqn:T; [exact Key|apply Next; exact T].
+  - exact Key.
+Qed.
+
+(* the upper end: never more than 1023 (four digits only for 1000..1023) *)
+Definition sig_hi_ok (r : rung_test * rung_fmt) : bool :=
+  match snd r, rung_last (fst r) with
+  | RInt, Some m => Z.min m (2 ^ 63 - 1) <=? 1023
+  | RFix p d _, Some m => fmt_ok (snd r) && (scaled p d (Z.max 0 (Z.min m (2 ^ 63 - 1))) <=? 1023)
+  | _, None => false
+  end.
+Definition sig_high (f : rung_fmt) (n : Z) : Prop :=
+  match f with RInt => n <= 1023 | RFix p d _ => scaled p d n <= 1023 end.
+
+Lemma ladder_upper l : forallb sig_hi_ok l = true -> existsb is_else l = true ->
+  forall n, 0 <= n < 2 ^ 63 -> sig_high (select n l) n.
+Proof.
+  induction l as [|[t f] r IH]; intros Hok He n Hn; [discriminate He|].
+  cbn [forallb] in Hok. apply andb_prop in Hok. destruct Hok as [H1 H2].
+  assert (Key : test t n = true -> sig_high f n).
+  { intros T. unfold sig_hi_ok in H1. cbn [fst snd] in H1.
+    destruct (rung_last t) as [m|] eqn:E; [|destruct f; discriminate].
+    pose proof (rung_last_ok t m n E Hn T) as Hle.
+    destruct f as [|p d u]; cbn [sig_high].
+    - apply Z.leb_le in H1. lia.
+    - apply andb_prop in H1. destruct H1 as [Hf H1]. apply Z.leb_le in H1.
+      cbn [fmt_ok] in Hf. apply andb_prop in Hf. destruct Hf as [Hp Hd].
+      apply Z.leb_le in Hp. apply Z.ltb_lt in Hd.
+      pose proof (scaled_mono p d n (Z.max 0 (Z.min m (2 ^ 63 - 1))) Hp Hd ltac:(lia)). lia. }
+  destruct t as [num den|num den|]; cbn [select].
+  - destruct (n * den <? num) eqn:T; [apply Key; exact T|apply IH; [exact H2|exact He|exact Hn]].
+  - destruct (to_double n * den <? num) eqn:T; [apply Key; exact T|apply IH; [exact H2|exact He|exact Hn]].
+  - apply Key. reflexivity.
+Qed.
+
+Lemma ladders_significant :
+  (ladder_lo_ok 0 si_ladder = true /\ forallb sig_hi_ok si_ladder = true) /\
+  (ladder_lo_ok 0 iec_ladder = true /\ forallb sig_hi_ok iec_ladder = true).
+Proof. vm_compute. repeat split. Qed.
+
+(* every n: the number printed with a unit has three significant digits (100..999 scaled), or is
+   1000..1023 at the top of a %.0f rung; without a unit n <= 1023 is printed as it is *)
+Lemma si_significant n : 0 <= n < 2 ^ 63 -> sig_low (select n si_ladder) n /\ sig_high (select n si_ladder) n.
+Proof.
+  intros Hn. split.
+  - exact (ladder_lower si_ladder 0 (proj1 (proj1 ladders_significant)) n (proj1 Hn) Hn).
+  - exact (ladder_upper si_ladder (proj2 (proj1 ladders_significant)) (proj2 si_ladder_ok) n Hn).
+Qed.
+Lemma iec_significant n : 0 <= n < 2 ^ 63 -> sig_low (select n iec_ladder) n /\ sig_high (select n iec_ladder) n.
+Proof.
+  intros Hn. split.
+  - exact (ladder_lower iec_ladder 0 (proj1 (proj2 ladders_significant)) n (proj1 Hn) Hn).
+  - exact (ladder_upper iec_ladder (proj2 (proj2 ladders_significant)) (proj2 iec_ladder_ok) n Hn).
+Qed.
+
 (* ====================================================================== *)
 (* 6. accuracy: three roundings, in exact arithmetic                       *)
 (* ====================================================================== *)
